@@ -294,7 +294,8 @@ func olvmLogCode() []byte {
 }
 
 // env: 1 store env values into slots 0..9; 2 LOG0 the same values; 3 BLOCKHASH(NUMBER-arg0) -> slot 0x20;
-// 4 BASEFEE -> slot 0x22; 5 COINBASE/DIFFICULTY/GASLIMIT/CODESIZE -> slots 0x30..; 6 probe(addr) -> slots 0x40..
+// 4 BASEFEE -> slot 0x22; 5 COINBASE/DIFFICULTY/GASLIMIT/CODESIZE -> slots 0x30..; 6 probe(addr) -> slots 0x40..;
+// 7 BLOCKHASH(NUMBER-arg0) twice and BLOCKHASH(NUMBER-arg0-1) -> slots 0x23..0x25
 // OlvmNoGaslimit (set by profiles whose oracle exempts the block's running gas total, C06) replaces
 // GASLIMIT in generated contracts: the opcode returns the remaining block gas pool.
 var OlvmNoGaslimit = false
@@ -302,7 +303,7 @@ var OlvmNoGaslimit = false
 func olvmEnvCode() []byte {
 	vals := []byte{ovCALLER, ovORIGIN, ovTIMESTAMP, ovNUMBER, ovCHAINID, ovGASPRICE, ovSELFBALANCE, ovADDRESS, ovCALLVALUE}
 	a := newOlvmAsm()
-	a.sel().caseOf(1, "store").caseOf(2, "log").caseOf(3, "bhash").caseOf(4, "basefee").caseOf(5, "ext").caseOf(6, "probe")
+	a.sel().caseOf(1, "store").caseOf(2, "log").caseOf(3, "bhash").caseOf(4, "basefee").caseOf(5, "ext").caseOf(6, "probe").caseOf(7, "bhash3")
 	a.op(ovSTOP)
 	a.label("store")
 	for i, v := range vals {
@@ -318,6 +319,9 @@ func olvmEnvCode() []byte {
 	a.push(320).push(0).op(ovLOG0, ovSTOP)
 	a.label("bhash").arg(0).op(ovNUMBER, ovSUB, ovBLOCKHASH).sstoreTo(0x20).op(ovSTOP)
 	a.label("basefee").op(ovBASEFEE).sstoreTo(0x22).op(ovSTOP)
+	// the same earlier block's hash twice, then its predecessor's (the hash provider caches per transaction)
+	a.label("bhash3").arg(0).op(ovNUMBER, ovSUB, ovBLOCKHASH).sstoreTo(0x23).arg(0).op(ovNUMBER, ovSUB, ovBLOCKHASH).sstoreTo(0x24)
+	a.push(1).arg(0).op(ovADD, ovNUMBER, ovSUB, ovBLOCKHASH).sstoreTo(0x25).op(ovSTOP)
 	gl := byte(ovGASLIMIT)
 	if OlvmNoGaslimit {
 		gl = ovCODESIZE
@@ -959,6 +963,15 @@ func (st *olvmState) one(c *Ctx, v *olvmView, s *olvmSender, rest *[]*olvmSender
 			return st.create(c, s, missing[c.Rng.Intn(len(missing))], nil, rest)
 		}
 	}
+	if !s.user && s.exact && c.Rng.Intn(10) == 0 {
+		// "send max": the whole balance leaves in one plain transfer, nothing is refunded, the account is left
+		// with exactly zero (the generator's own accounts are topped up again by fund())
+		cost := new(big.Int).Mul(big.NewInt(21000), olvmGasPrice())
+		if bal := v.bal(olvmEth(s.acc)); bal.Cmp(cost) > 0 {
+			to := olvmEth(c.W.EthUsers[c.Rng.Intn(len(c.W.EthUsers))])
+			return []Tx{st.tx(c, s, &to, new(big.Int).Sub(bal, cost), nil, 21000, "OLVM/send-max", nil)}
+		}
+	}
 	for try := 0; try < 4; try++ {
 		var out []Tx
 		switch r := c.Rng.Intn(100); {
@@ -1137,6 +1150,9 @@ func (st *olvmState) envOps(c *Ctx, v *olvmView, s *olvmSender) []Tx {
 	}
 	if olvmFlag(c, "olvm-blockhash", OlvmBlockhash) && c.Rng.Intn(3) == 0 {
 		back := []uint64{1, 1, 1, 2, 3, 0, 255, 256, 257, 1000000}[c.Rng.Intn(10)]
+		if c.Rng.Intn(3) == 0 {
+			return []Tx{st.tx(c, s, &k.Addr, nil, olvmData(7, olvmWord(back)), 300000, "OLVM/blockhash-thrice", nil)}
+		}
 		return []Tx{st.tx(c, s, &k.Addr, nil, olvmData(3, olvmWord(back)), 200000, "OLVM/blockhash", nil)}
 	}
 	if olvmFlag(c, "olvm-basefee", OlvmBasefee) && c.Rng.Intn(4) == 0 {
@@ -1612,6 +1628,21 @@ func (st *olvmState) hostile(c *Ctx, v *olvmView, s *olvmSender, rest *[]*olvmSe
 		})
 		return []Tx{tx}
 	case 34:
+		if c.Rng.Intn(2) == 0 {
+			// the fee currency of the envelope is not covered by the Ethereum signature
+			tx := st.tx(c, s, &to, amt, nil, 21000, "OLVM/fee-currency-hostile", &olvmOpt{noBump: true})
+			cur := []string{"", "", "ETH", "NOPE", "olt"}[c.Rng.Intn(5)]
+			if stx := core.DecodeTx(tx.Bytes); stx != nil {
+				stx.Fee.Price.Currency = cur
+				if b, err := serialize.GetSerializer(serialize.NETWORK).Serialize(stx); err == nil {
+					tx.Bytes = b
+					if cur == "" {
+						tx.Kind = "OLVM/fee-currency-empty"
+					}
+				}
+			}
+			return []Tx{tx}
+		}
 		tx := st.tx(c, s, &to, amt, nil, 21000, "OLVM/currency-other", nil)
 		cur := []string{"ETH", "BTC", "VT", "NOPE"}[c.Rng.Intn(4)]
 		tx.Bytes = olvmMutate(tx.Bytes, func(m *olvm.Transaction) { m.Amount.Currency = cur })
